@@ -5,6 +5,7 @@ x method parameters, and for C11 additionally all histories of compile()/get_com
 purge() up to a depth bound plus the closure of the abstract cache state graph.
 """
 import itertools
+import json
 import os
 import re
 import shutil
@@ -45,6 +46,9 @@ PATTERNS = [
     ("Pregex('a') + Newline() + MatchAtLineStart('b')", ''), ("MatchAtLineEnd('a') + Newline() + 'b'", ''), ("'a' + Any() + 'b'", ''),
     ("Indefinite(Any()) + MatchAtLineEnd(Pregex('a'))", ''), ("Optional(MatchAtLineStart('a') + Newline()) + 'b'", ''),
     ("Pregex('\ufeff') + Optional('a')", '\ufeff'), ("Optional('a')", '\ufeff'),
+    ("Optional('a', False)", ''), ("Indefinite(AnyLetter(), False)", ''), ("Either(WordBoundary(), AnyLetter())", ' '), ("Either(Pregex(), 'a')", '') if False else ("AtMost('ab', 2, False)", ''),
+    ("Pregex('\\\\') + Capture('a')", '\\'), ("Pregex('\\\\') + Capture(OneOrMore(AnyLetter()))", '\\'), ("Either(MatchAtStart('ab'), OneOrMore('b'))", ''), ("Either(MatchAtStart('a') + 'b', 'b', MatchAtEnd('a'))", ''),
+    ("MatchAtStart(Either(MatchAtStart('a'), 'b'))", ''), ("Optional(OneOrMore('a'), False) + Either('b', 'ab' + Any())", ''),
     # non-printable / astral code points: what get_pattern() prints is what compile() compiles
     ("Pregex('\u2028')", '\u2028'), ("Pregex('\u202f') + 'a'", '\u202f'), ("Pregex('\u200b')", '\u200b'), ("Pregex('\U0001f600')", '\U0001f600'), ("Pregex('\x85')", '\x85'),
 ]
@@ -375,6 +379,11 @@ def layouts(tier):
                     out.append(f"{parts[0]} + Capture({' + '.join(parts[1:])}, 'inner')")
                 out.append(f"Optional(Capture({seq}, 'outer'))")
                 out.append(f"'a' + Capture({seq})")
+    # captures that lie outside the match itself (inside a lookbehind / lookahead): relative positions are negative or beyond the end
+    out += ["PrecededBy('c', Capture('ab'))", "PrecededBy('c', Capture('a', 'n') + 'b')", "PrecededBy(Capture('c'), 'a' + Capture('b', 'n'))", "FollowedBy('a', Capture('b'))",
+            "FollowedBy(Capture('a', 'n'), 'b' + Capture('c'))", "EnclosedBy('b', Capture('a'))", "PrecededBy('b', Capture(AnyLetter(), 'n') + AnyLetter() + AnyLetter())",
+            "Capture(Optional('a')) + Capture(Optional('b')) + Capture(Optional('a'), 'n')", "Capture(Pregex()) + Capture(Pregex(), 'n') + 'a'",
+            "Pregex('\\\\') + Capture('a')", "'(' + Capture('a', 'n') + ')'"]
     seen, res = set(), []
     for e in out:
         if e not in seen:
@@ -441,7 +450,7 @@ def _task12(arg):
         pc.compile()
         td = tempfile.mkdtemp(prefix='c12_')
         try:
-            for t in ('ab', 'abcab', 'a'):
+            for t in ('ab', 'abcab', 'a', '', 'cabcab'):
                 path = os.path.join(td, 'f.txt')
                 with open(path, 'w', encoding='utf-8') as fh:
                     fh.write(t)
@@ -491,7 +500,7 @@ def _task12(arg):
                             if g is None:
                                 if (s, e) != (-1, -1):
                                     why = f"non-participating group reported at {(s, e)}"
-                            elif (m.group(0) if rel else t)[s:e] != g:
+                            elif t[(m.start() if rel else 0) + s:(m.start() if rel else 0) + e] != g:   # a capture inside a lookaround lies outside the match
                                 why = f"{meth}({t!r}, {kw}): slice [{s}:{e}] is not {g!r}"
                 if why:
                     bad.add((meth, ie, rel))
@@ -539,6 +548,7 @@ FLAT_LAYOUTS = ["Capture('a')", "Capture('a') + Capture('b')", "Capture('a', 'x'
                 "Pregex('\\\\') + Capture('a')", "Capture(Pregex('\\\\')) + 'a'", "'(' + Capture('a') + ')'", "Capture('(')", "Capture(AnyFrom('(', ')'))",
                 "Group('a') + Capture('b')", "Capture('a') + Group(Optional('b'))", "Pregex('\\\\') + Capture('a', 'x') + Pregex('\\\\') + Capture('b')",
                 "AnyFrom('(', 'a') + Capture('b')", "Capture('a') + '?'", "Pregex('(?:') + Capture('a')"]
+FLAT_LAYOUTS += ["Capture(Optional('a')) + Capture(Optional('b'))", "Capture(Pregex()) + Capture(Indefinite('b')) + Capture(Optional('a'), 'n')", "Capture(Optional('a')) + Capture(Pregex(), 'e') + 'b'"]
 FLAT_EXTRA = {e: '(?:' if "'(?:'" in e else ('\\' if '\\\\' in e else '') + ('(' if "'('" in e or "'(?:'" in e else '') + (')' if "')'" in e else '') + ('?' if "'?'" in e else '') or 'c' for e in FLAT_LAYOUTS}
 
 
@@ -575,7 +585,7 @@ def _task13(arg):
                                   'import re\n%s\nt = %r\nms = [m.group(0) for m in re.finditer(str(p), t, 24)]\nps = p.split_by_match(t)\n'
                                   "assert len(ps) == len(ms) + 1 and ''.join(a + b for a, b in zip(ps, ms)) + ps[-1] == t" % (setup, t)))
             # replace
-            for count in ((0, 1, 2, 3, 10) if ti % 4 == 0 else (0, 2)):
+            for count in ((0, 1, 2, 3, 4, 5, 6, 7, 9, 10, 11) if ti % 4 == 0 else (0, 2, len(t) + 2)):
                 for repl in ('', 'X', 'ab', '-', 'N/A', '1.5', '(x)', '$', 'a|b', '[^', '?*+', '{0}', '%s'):
                     if ('rep', count) in bad:
                         continue
@@ -820,6 +830,70 @@ def _task14(arg):
     return viol, cnt
 
 
+_ENV14_CODE = r'''
+import os, sys, tempfile, json
+from mc.env import NS
+Pregex = NS['Pregex']
+out = []
+d = tempfile.mkdtemp()
+os.chdir(d)
+os.makedirs('~', exist_ok=True)
+os.makedirs('sub dir', exist_ok=True)
+content = 'ab \u00e9a\nb\u03bb a\u4e2d'
+names = ['plain.txt', '~tilde.txt', os.path.join('~', 'f.txt'), os.path.join('sub dir', 'sp ace.txt'), '\u00fcn\u00ef.txt', '%41.txt', 'a[1].txt', '#x', '$HOME', 'a*b?.txt', os.path.join('.', 'dot.txt'),
+         os.path.join('sub dir', '..', 'up.txt'), os.path.abspath('abs.txt'), 'UPPER.TXT', 'noext', 'file.txt.bak', "q'uote.txt"]
+exprs = ["Pregex('a')", "Capture(AnyLetter(is_global=True) if False else AnyLetter(), 'l') + Optional(AnyButWhitespace())", "MatchAtLineStart(AnyButFrom(' '))", "Pregex('\\u00e9')"]
+for nm in names:
+    try:
+        with open(nm, 'w', encoding='utf-8', newline='') as fh:
+            fh.write(content)
+    except (OSError, UnicodeError):
+        continue
+    for ex in exprs:
+        for comp in (False, True):
+            p = eval(ex, dict(NS))
+            if comp:
+                p.compile()
+            for meth, kw in (('get_matches_and_pos', {}), ('has_match', {}), ('is_exact_match', {}), ('get_captures', {}), ('replace', {'repl': '#', 'count': 2}), ('split_by_match', {}),
+                             ('get_matches_with_context', {'n_left': 2, 'n_right': 2}), ('get_named_captures_and_pos', {'relative_to_match': True})):
+                try:
+                    a = getattr(p, meth)(nm, is_path=True, **kw)
+                except Exception as e:
+                    a = 'raised ' + type(e).__name__
+                b = getattr(p, meth)(content, **kw)
+                if a != b:
+                    out.append([nm, ex, comp, meth, repr(a)[:80], repr(b)[:80]])
+print(json.dumps(out))
+'''
+
+
+def _env14(run):
+    """paths of every shape (relative, '~', spaces, non-ASCII, glob and shell metacharacters) and the locale: the answer for a path to a
+    UTF-8 file is the answer for its content whatever the working directory, the file's name or the interpreter's default encoding"""
+    n = 0
+    for label, env in (('default', {}), ('C locale', {'LC_ALL': 'C', 'LANG': 'C', 'PYTHONUTF8': '0', 'PYTHONCOERCECLOCALE': '0'}),
+                       ('latin-1 locale', {'LC_ALL': 'en_US.ISO-8859-1', 'PYTHONUTF8': '0', 'PYTHONCOERCECLOCALE': '0'}), ('utf8 mode', {'PYTHONUTF8': '1'}),
+                       ('HOME elsewhere', {'HOME': '/nonexistent-home'})):
+        r = common.run_py(_ENV14_CODE, env=env)
+        if r.returncode != 0:
+            if label == 'default':
+                raise common.Internal('path/locale child failed: ' + r.stderr[-400:])
+            continue      # an interpreter that cannot even start in that locale says nothing about pregex
+        try:
+            bad = json.loads(r.stdout.strip().splitlines()[-1])
+        except Exception:  # noqa: BLE001
+            continue
+        n += 1
+        for nm, ex, comp, meth, a, b in bad[:6]:
+            run.add([V(f'C14|env|{label}|{nm}|{ex}|{meth}', f"[{label}] {ex}{' (compiled)' if comp else ''}: {meth}({nm!r}, is_path=True) = {a} but on the file's content it is {b}",
+                       "import os, tempfile\nd = tempfile.mkdtemp()\nos.chdir(d)\nos.makedirs('~', exist_ok=True)\nos.makedirs('sub dir', exist_ok=True)\n"
+                       f"content = 'ab \\u00e9a\\nb\\u03bb a\\u4e2d'\nopen({nm!r}, 'w', encoding='utf-8', newline='').write(content)\np = {ex}\n{'p.compile()' if comp else ''}\n"
+                       f"assert repr(p.{meth}({nm!r}, is_path=True))[:80] == {b!r}",
+                       environment=env)])
+    run.count('path_and_locale_environments', n)
+    return n
+
+
 def run_C14(run):
     thorough = run.tier == 'thorough'
     L = 6 if thorough else 4
@@ -835,6 +909,7 @@ def run_C14(run):
         for k, v in cnt.items():
             tot[k] = tot.get(k, 0) + v
     run.merge_counts(tot)
+    _env14(run)
     run.sample({'pattern': exprs[2], 'method': 'get_captures_and_pos', 'kwargs': {'relative_to_match': True, 'is_path': True}, 'content': 'ab\nba\n\naab\n'})
     cov = {
         'states': tot['files'], 'transitions': tot['observations'],
